@@ -36,3 +36,14 @@ func init() {
 		},
 	})
 }
+
+func init() {
+	register(&PropSpec{ID: "TMPARMS", Explanation: "tmp", Run: func(r *Report) {
+		ruleStorageArms(r)
+		ruleIndexArms(r)
+		ruleTriggerArms(r)
+		ruleKeyArms(r)
+		ruleSortArms(r)
+		ruleMarkerArms(r)
+	}})
+}
